@@ -4,8 +4,11 @@ import (
 	"context"
 	"errors"
 	"fmt"
+	"os"
 	"strings"
 	"time"
+
+	"github.com/openfga/openfga/pkg/logger"
 
 	openfgav1 "github.com/openfga/api/proto/openfga/v1"
 	"google.golang.org/grpc/codes"
@@ -97,6 +100,7 @@ type Env struct {
 	S       *server.Server
 	StoreID string
 	ModelID string
+	name    string
 }
 
 func NewEnv(ds storage.OpenFGADatastore, opts ...server.OpenFGAServiceV1Option) *Env {
@@ -104,6 +108,9 @@ func NewEnv(ds storage.OpenFGADatastore, opts ...server.OpenFGAServiceV1Option) 
 		ds = memory.New()
 	}
 	all := append([]server.OpenFGAServiceV1Option{server.WithDatastore(ds)}, opts...)
+	if lvl := os.Getenv("VERIF_LOG"); lvl != "" {
+		all = append(all, server.WithLogger(logger.MustNewLogger("text", lvl, "ISO8601")))
+	}
 	return &Env{DS: ds, S: server.MustNewServerWithOpts(all...)}
 }
 
